@@ -164,13 +164,45 @@ def _release_slice(rep, seed):
     return {'release_build_evaluations': n}
 
 
+def _miri_cases(rng):
+    """Small-operand scripts without Display of results (rendering is a long bit-by-bit division loop that
+    costs Miri ~8 s per number): results are judged through == against from_vec expectations only, plus a
+    handful of one-limb renderings."""
+    out = []
+    for _ in range(250):
+        a, b = N.rand_int(rng, 3), N.rand_int(rng, 3)
+        op = rng.choice(['add', 'sub', 'mul', 'addas', 'subas', 'mulas', 'cmp', 'eq', 'neg'])
+        A, B = N.limbs_tok(a), N.limbs_tok(b)
+        if op in ('add', 'addas'):
+            v = a + b
+        elif op in ('sub', 'subas'):
+            v = a - b
+        elif op in ('mul', 'mulas'):
+            v = a * b
+        if op == 'cmp':
+            script, expect = '%s %s bcmp out' % (A, B), ['o|' + ('E' if a == b else ('L' if a < b else 'G'))]
+        elif op == 'eq':
+            script, expect = '%s %s beq out' % (A, B), ['b|%d' % (1 if a == b else 0)]
+        elif op == 'neg':
+            script, expect = '%s bneg %s beq out' % (A, N.limbs_tok(-a)), ['b|1']
+        else:
+            script, expect = '%s %s b%s %s beq out' % (A, B, op, N.limbs_tok(v)), ['b|1']
+        out.append({'script': script, 'expect': expect, 'tag': 'miri', 'desc': op})
+    for _ in range(10):
+        a = rng.randint(-99, 99)
+        b = rng.choice([1, 2, 3, 7, -5])
+        out.append({'script': '%s %s bdiv out' % (N.limbs_tok(a), N.limbs_tok(b)), 'expect': [N.exp_big(N.trunc_div(a, b))], 'tag': 'miri', 'desc': 'div'})
+    return out
+
+
 def _miri_slice(rep, seed):
     """Undefined-behaviour interpreter over ~300 operations (tripwire: the library has no `unsafe` today)."""
     import os
     import subprocess
     rng = C.rng_for(seed, MOD, 'miri')
-    cases = gen_cases(rng, 300, 'quick')
-    cases = [c for c in cases if len(c['script']) < 400][:250]
+    # Miri is ~4 orders of magnitude slower and Display/division are long bit-by-bit loops: keep operands
+    # to one or two limbs (short scripts) and the slice small
+    cases = _miri_cases(rng)
     env = dict(os.environ)
     env['CARGO_NET_OFFLINE'] = 'true'
     env['MIRIFLAGS'] = '-Zmiri-disable-isolation'
@@ -179,7 +211,7 @@ def _miri_slice(rep, seed):
                             os.path.join(C.ROOT, 'harness', 'num', 'Cargo.toml'), '--target-dir',
                             os.path.join(C.BUILD, 'miri-num')],
                            input=('\n'.join(c['script'] for c in cases) + '\n').encode(), stdout=subprocess.PIPE,
-                           stderr=subprocess.PIPE, env=env, timeout=1500)
+                           stderr=subprocess.PIPE, env=env, timeout=900)
     except (subprocess.TimeoutExpired, OSError) as e:
         rep.inconc('miri slice did not complete: %s' % e)
         return {'miri_operations': 0}
